@@ -178,4 +178,56 @@ Proof.
     exact (C12_no_panic_lemma hash hash_eqb HS hash_eqb_spec f t (tl fs) Hwf _ _ _ _ E eq_refl).
 Qed.
 
+(** ** the whole command on a one-file directory *)
+
+(** [Executor.Pending] on a directory with one (non-checkpoint) file whose
+    revision is the only one stored and is partial: the file is pending. *)
+Lemma pending_single_partial c f (r : rev) :
+  f_ckpt f = false -> r_version r = f_version f -> r_applied r <> r_total r ->
+  pending c [f] [r] = (PFiles [f], None).
+Proof.
+  intros Hck Hv Hpart. unfold pending, skip_checkpoints, last_opt. cbn [filter length Nat.sub nth_error].
+  rewrite Hck. cbn [negb filter].
+  assert (r_applied r =? r_total r = false) as -> by (apply Nat.eqb_neq; exact Hpart).
+  cbn [negb andb Nat.eqb length map].
+  unfold bsearch. cbn [length map bsearch_loop Nat.ltb Nat.leb Nat.add Nat.div Nat.divmod fst nth_error].
+  rewrite Hv, bytes_ltb_irrefl. cbn [Nat.ltb Nat.leb nth_error].
+  rewrite bytes_eqb_refl, Hck.
+  unfold files_last_index. cbn [last_index_from]. rewrite bytes_eqb_refl.
+  cbn [skipn firstn index_func]. reflexivity.
+Qed.
+
+(** `atlas migrate apply` on a one-file directory whose partially applied
+    file had its applied part edited: for every fault stream, both tx modes
+    and every count argument, nothing is executed or committed and the table
+    is what it was; the command does not succeed. *)
+Lemma C12_refuse_cli_lemma txfile c n fs f (r : rev) old :
+  f_ckpt f = false -> r_version r = f_version f -> r_applied r <> r_total r ->
+  0 < r_applied r -> recorded r old ->
+  firstn (r_applied r) (f_stmts f) <> firstn (r_applied r) old ->
+  forall o t' fs' es j, cli_apply hash hash_eqb HS txfile c n [f] [r] fs = (o, t', fs', es, j) ->
+  collision_at old (f_stmts f) (r_applied r) \/
+  (exec_events es = [] /\ j = [] /\ t' = [r] /\
+   o <> CRun (SExec ODone) /\ o <> CPend PNoPending).
+Proof.
+  intros Hck Hv Hpart Hpos Hrec Hne o t' fs' es j Hcli.
+  unfold cli_apply, read_revisions_f in Hcli.
+  rewrite pop_hd_tl in Hcli. destruct (hd false fs).
+  { inversion Hcli; subst. right. repeat split; auto; discriminate. }
+  change (read_revisions hash [r]) with [r] in Hcli.
+  rewrite (pending_single_partial c f r Hck Hv Hpart) in Hcli. cbn [negb] in Hcli.
+  rewrite pop_hd_tl in Hcli. destruct (hd false (tl fs)).
+  { inversion Hcli; subst. right. repeat split; auto; discriminate. }
+  assert ((if 0 <? n then firstn n [f] else [f]) = [f]) as E.
+  { destruct n; [reflexivity|]. cbn. destruct n; reflexivity. }
+  rewrite E in Hcli.
+  destruct (apply_files txfile [f] [r] (tl (tl fs))) as [[[[o1 t1] fs1] es1] j1] eqn:A.
+  inversion Hcli; subst.
+  assert (tbl_get [r] (f_version f) = Some r) as Hget.
+  { cbn. rewrite Hv, bytes_eqb_refl. reflexivity. }
+  destruct (C12_refuse_apply_lemma txfile [r] (tl (tl fs)) f [] r old Hget Hpos Hrec Hne _ _ _ _ _ A)
+    as [Hc|(He & Hj & Ht & Ho)]; [left; exact Hc|right].
+  repeat split; auto; [congruence|discriminate].
+Qed.
+
 End Proofs.
